@@ -88,6 +88,9 @@ impl Scenario for C03 {
         matches!((v.property, v.class.as_str()), ("C01", "authentic-rejected" | "roundtrip-mismatch" | "seal-failed" | "wrong-token-length"))
     }
     fn plan(&self, seed: u64, run: u64, tier: Tier) -> Plan {
+        if run < 8 {
+            return sweep_lengths(seed, run, tier);
+        }
         let mut r0 = crate::prng::Rng::derive(seed, "c03-nodes", run);
         let (f, nodes) = family_nodes(&mut r0);
         let mut b = Builder::new("C03", seed, run, nodes.clone());
@@ -138,6 +141,57 @@ impl Scenario for C03 {
         }
         b.finish()
     }
+}
+
+/// Runs 0..8: (version, purpose): every footer length and every assertion length 0..=L with a small
+/// message, and every message length with a fixed footer, each token cross-checked against the
+/// reference (length-prefix and buffer-size handling of the pre-authentication encoding).
+fn sweep_lengths(seed: u64, run: u64, tier: Tier) -> Plan {
+    let f = 1 + (run % 4) as u8;
+    let purpose = if run / 4 == 0 { Purp::Local } else { Purp::Public };
+    let nodes = match f {
+        1 => vec![Bk::V1],
+        2 => vec![Bk::V2],
+        3 => vec![Bk::V3, Bk::V3Lc],
+        _ => vec![Bk::V4, Bk::V4Na],
+    };
+    let mut b = Builder::new("C03", seed, run, nodes.clone());
+    let fk = b.family_keys(f, false).unwrap();
+    let now = Ns(b.now_ns);
+    let slow = purpose == Purp::Public && matches!(f, 1 | 3);
+    let top = match (tier, slow) {
+        (Tier::Quick, true) => 70,
+        (Tier::Quick, false) => 330,
+        (Tier::Thorough, true) => 330,
+        (Tier::Thorough, false) => 1100,
+    };
+    let (key, vkey) = if purpose == Purp::Local { (fk.local, fk.local) } else { (fk.secret, fk.public) };
+    let mut emit = |b: &mut Builder, mlen: usize, flen: usize, alen: usize| {
+        let tok = b.tok_slot();
+        let issuer = b.rng.usize_below(nodes.len());
+        let claims = ClaimsSpec::Raw { bytes: Bytes::Gen { len: mlen, seed: b.ev_seed() } };
+        let footer = if flen == 0 { FootSpec::Unit } else { FootSpec::Bytes { bytes: Bytes::Gen { len: flen, seed: b.ev_seed() } } };
+        let aad = if f >= 3 { Bytes::Gen { len: alen, seed: b.ev_seed() } } else { Bytes::empty() };
+        let rng = b.healthy_rng();
+        b.push(Step::Seal { tok, node: issuer, key, purpose, claims, footer, aad, nonce: None, alias: false, rng, now_ns: now });
+        for node in 0..nodes.len() {
+            b.push(Step::Deliver { tok, node, key: vkey, purpose: None, faults: vec![], pk: None, fk: Some(crate::backend::FootKind::Bytes), validator: VSpec::None, alias: false, now_ns: now, pair_with: None });
+        }
+    };
+    for l in 0..=top {
+        emit(&mut b, 7, l, 0);
+        if f >= 3 {
+            emit(&mut b, 7, 3, l);
+        }
+        emit(&mut b, l, 5, 2);
+    }
+    for big in [4095usize, 4096, 65535, 65536, 65537] {
+        emit(&mut b, 9, big, 0);
+        if f >= 3 {
+            emit(&mut b, 9, 0, big);
+        }
+    }
+    b.finish()
 }
 
 fn pw_edge_rng(b: &mut Builder) -> RngSpec {
